@@ -356,7 +356,7 @@ def plan(tier, seed):
     if tier == 'quick':
         return [{'ncases': 300, 'kinds': ['args', 'misc', 'misc', 'spawn']} for _ in range(15)] + \
             [{'ncases': 40, 'kinds': ['spawn'], 'tsan': True}]
-    return [{'ncases': 1500, 'kinds': ['args', 'misc', 'misc', 'spawn']} for _ in range(28)] + \
+    return [{'ncases': 6000, 'kinds': ['args', 'misc', 'misc', 'spawn']} for _ in range(28)] + \
         [{'ncases': 200, 'kinds': ['spawn'], 'tsan': True} for _ in range(4)]
 
 
